@@ -117,7 +117,8 @@ class AbstractWalkModelDiGraph(ABC):
         if max_edge_repetition_dict is None:
             self.edge_upper_bounds = {edge: max_edge_repetition for edge in self.G.edges()}
         else:
-            self.edge_upper_bounds = max_edge_repetition_dict
+            # (a copy: the bounds of the edges outside SCCs are overwritten below)
+            self.edge_upper_bounds = dict(max_edge_repetition_dict)
             for edge in self.G.edges():
                 if edge not in self.edge_upper_bounds:
                     utils.logger.critical(f"{__name__}: Missing max_edge_repetition in max_edge_repetition_dict for edge {edge}")
